@@ -254,12 +254,15 @@ def monitor_c05(sc, obs):
             ids = [it['id'] for _, it in e['buf']]
             if d in prev:
                 pids, ptimes = prev[d]
-                # FIFO: what left is a prefix of what was stored; arrivals go to the back
+                # FIFO: what left is a prefix of what was stored; arrivals go to the back.  A stored entry is an arrival (time, id):
+                # on re-entrant routes a part that left can come back later, as a new entry at the back
+                old = list(zip(ptimes, pids))
+                cur = [(t, it['id']) for t, it in e['buf']]
                 k = 0
-                while k < len(pids) and pids[k] not in ids:
+                while k < len(old) and old[k] not in cur:
                     k += 1
-                rest = pids[k:]
-                if ids[:len(rest)] != rest:
+                rest = old[k:]
+                if cur[:len(rest)] != rest:
                     _bad(v, 'C05/fifo', 'op %d %s: buffer %d held %s and now holds %s: parts did not leave in arrival order' % (i, o['op'], d, pids, ids))
                 if o['op'][0] == 'step':
                     for j in range(k):
